@@ -90,6 +90,20 @@ class FalsyError(AppError):
         return False
 
 
+class BadStrBaseError(Exception):
+    """str() of it is interrupted by something that is not an Exception."""
+
+    def __str__(self):
+        raise AppBase("interrupted while formatting")
+
+
+class NoModuleError(Exception):
+    """A class whose __module__ is not a string (the traceback module tolerates these)."""
+
+
+NoModuleError.__module__ = None
+
+
 class CodedError(AppError):
     def __init__(self, msg):
         AppError.__init__(self, msg)
@@ -117,6 +131,8 @@ EXC_TABLE = [
     FileNotFoundError,
     EmptyErrors,
     FalsyError,
+    BadStrBaseError,
+    NoModuleError,
 ]
 BASE_ONLY = set(i for i, c in enumerate(EXC_TABLE) if not issubclass(c, Exception))
 
@@ -356,7 +372,14 @@ class Interp(object):
     def op_try(self, node, ctx, pending):
         depth = len(ctx.stack)
         try:
-            self.exec_nodes(node["body"], ctx)
+            try:
+                self.exec_nodes(node["body"], ctx)
+            finally:
+                if node.get("final"):
+                    # clean-up code that runs while an exception may be unwinding
+                    del ctx.stack[depth:]
+                    self.stat("finally-block")
+                    self.exec_nodes(node["final"], ctx)
         except (Abort, HarnessError):
             raise
         except BaseException as e:
@@ -365,6 +388,11 @@ class Interp(object):
                 raise Abort()
             self.stat("caught")
             self.stat("caught:" + type(e).__name__)
+            del ctx.stack[depth:]
+            if node.get("handler"):
+                # recovery code inside the except block: another exception is being handled meanwhile
+                self.stat("except-handler-body")
+                self.exec_nodes(node["handler"], ctx)
         del ctx.stack[depth:]
         self.expect_current(ctx, "after try")
 
@@ -1380,6 +1408,8 @@ def program_features(program):
             elif op == "try":
                 f["try"] += 1
                 walk(node["body"], depth)
+                walk(node.get("handler") or [], depth)
+                walk(node.get("final") or [], depth)
             elif op == "reenter":
                 f["reenter"] = f.get("reenter", 0) + 1
                 walk(node["body"], depth)
@@ -1472,7 +1502,15 @@ def programs(max_nodes=12, faults=False, remote=True, kinds=None, msg_kinds=None
                 )
             )
         if raises:
-            options.append(body.map(lambda b: {"op": "try", "body": b}))
+            small = st.lists(leaf, max_size=2) if not extras else st.lists(st.one_of(leaf, action), max_size=2)
+            options.append(
+                st.builds(
+                    lambda b, h, f_: {"op": "try", "body": b, "handler": h, "final": f_},
+                    body,
+                    st.one_of(st.just([]), small),
+                    st.one_of(st.just([]), st.just([]), small),
+                )
+            )
         if remote:
             options.extend([
                 st.builds(
